@@ -94,7 +94,7 @@ func genCase(t *rapid.T) Case {
 			id = gen.Ident(true).Draw(t, "gid")
 		}
 		o := seeds.EmulOpts{CMS: rapid.Bool().Draw(t, "cms"), Attached: rapid.Bool().Draw(t, "attached"), SMIMECaps: rapid.Bool().Draw(t, "caps"),
-			NoCerts: rapid.IntRange(0, 3).Draw(t, "nocerts") == 0, ExtraAttr: rapid.SampledFrom([]int{0, 1, 2, 3, 4, 8, 16, 5, 12, 31}).Draw(t, "extra"), Sorted: true,
+			NoCerts: rapid.IntRange(0, 3).Draw(t, "nocerts") == 0, ExtraAttr: rapid.SampledFrom([]int{0, 1, 2, 3, 4, 8, 16, 5, 12, 31}).Draw(t, "extra"), Sorted: true, NoTime: rapid.IntRange(0, 5).Draw(t, "no_signing_time") == 0,
 			Time: time.Date(rapid.IntRange(1950, 2049).Draw(t, "year"), time.Month(rapid.IntRange(1, 12).Draw(t, "month")), rapid.IntRange(1, 28).Draw(t, "day"),
 				rapid.IntRange(0, 23).Draw(t, "h"), rapid.IntRange(0, 59).Draw(t, "m"), rapid.IntRange(0, 59).Draw(t, "s"), 0, time.UTC)}
 		typed := ""
